@@ -12,15 +12,16 @@ EXTENDS Cloud, TLC, Json, IOUtils
 Rec == ndJsonDeserialize(IOEnv.TRACE)
 N == Len(Rec)
 MaxNode == 8
-PROPS == {"C01", "C05", "C08", "C09", "C10", "C12", "C14", "C15"}
+PROPS == {"C01", "C02", "C05", "C08", "C09", "C10", "C12", "C14", "C15"}
 Enforced == {p \in PROPS : IOEnv["VP_ENF_" \o p] = "1"}
 
-VARIABLES l, now, st, inst
+VARIABLES l, now, st, inst, sess
 \* st[n] = [up, s, c, plain]   inst = set of [nid, key, trusted, claims, T] of every node instance ever booted
-tvars == <<l, now, st, inst>>
+\* sess[n] = set of <<address, node instance>>: whom the last handshake completed at node n on that address was with
+tvars == <<l, now, st, inst, sess>>
 
 Down == [up |-> FALSE, s |-> <<>>, c |-> <<>>, plain |-> {}]
-TraceInit == l = 1 /\ now = 0 /\ st = [n \in 1..MaxNode |-> Down] /\ inst = {}
+TraceInit == l = 1 /\ now = 0 /\ st = [n \in 1..MaxNode |-> Down] /\ inst = {} /\ sess = [n \in 1..MaxNode |-> {}]
 
 \* a rule: evaluated only when one of its properties is enforced; a deviation is printed, never blocks
 \* (written with IF: TLC would split a disjunction inside an action into separate successors)
@@ -57,6 +58,7 @@ Boot(e) ==
   /\ inst' = inst \cup {[nid |-> c.nid, key |-> e.key, trusted |-> SeqSet(e.trusted), claims |-> e.claims, T |-> e.T]}
   /\ When(e.fresh, Chk({"C12", "C14", "C15"}, "boot-state",
                     obs = [peers |-> {}, pend |-> {}, claims |-> {}, own |-> c.adv \cup {e.n}, np |-> now, nr |-> now + OWN_RESET, rc |-> <<>>]))
+  /\ sess' = [sess EXCEPT ![e.n] = {}]
   /\ UNCHANGED now
 
 \* no control-plane change at all
@@ -80,12 +82,12 @@ ConnectEv(e) ==
       r == Connect(pre, n.c, e.a) IN
   /\ Compare("connect", r.s, obs)
   /\ Chk({"C14"}, "connect-emission", e.tagerr \/ e.sent = r.out)
-  /\ Adopt(e) /\ UNCHANGED <<now, inst>>
+  /\ Adopt(e) /\ UNCHANGED <<now, inst, sess>>
 
 AddRcEv(e) ==
   LET pre == st[e.n].s obs == FromPost(e.post) IN
   /\ Compare("addrc", [pre EXCEPT !.rc = Append(@, [a |-> <<e.a>>, tries |-> 0, to |-> 1, next |-> now])], obs)
-  /\ Adopt(e) /\ UNCHANGED <<now, inst>>
+  /\ Adopt(e) /\ UNCHANGED <<now, inst, sess>>
 
 HkEv(e) ==
   LET n == st[e.n] pre == n.s obs == FromPost(e.post)
@@ -103,7 +105,7 @@ HkEv(e) ==
   \* C15: a peer is removed "with its routes": after the housekeeping no claim and no learned address points at a non-peer
   /\ Chk({"C15"}, "hk-routes-of-removed-peers-gone", NextHopsArePeers(obs) /\ SeqSet(e.post.cachep) \subseteq Addrs(obs.peers))
   /\ Chk({"C10"}, "hk-no-interface-write", e.wrote = 0)
-  /\ Adopt(e) /\ UNCHANGED <<now, inst>>
+  /\ Adopt(e) /\ UNCHANGED <<now, inst, sess>>
 
 RecvEv(e) ==
   LET n == st[e.n] pre == n.s c == n.c obs == FromPost(e.post)
@@ -126,9 +128,9 @@ RecvEv(e) ==
   \* C01 / C08 / C09: a fabricated datagram (not byte-identical to anything a node ever sent) is dropped: no reply,
   \* no interface write, no change of any table (unauthenticated plain sessions excepted)
   /\ When(~genuine /\ ~plainSrc,
-        /\ Chk({"C01", "C08", "C09"}, "forged-rejected", e.res \in {"ignored", "err", "errinit", "panic"})
+        /\ Chk({"C01", "C02", "C08", "C09"}, "forged-rejected", e.res \in {"ignored", "err", "errinit", "panic"})
         /\ Chk({"C01", "C08", "C09"}, "forged-leaves-no-state", Same(pre, obs) /\ SeqSet(e.post.pend) = pre.pend)
-        /\ Chk({"C01", "C08", "C09"}, "forged-no-reply", e.sent = <<>> /\ e.wrote = 0))
+        /\ Chk({"C01", "C02", "C08", "C09"}, "forged-no-reply", e.sent = <<>> /\ e.wrote = 0))
   \* C09: whatever an attacker injects (verbatim replay or fabricated, any claimed source: id 0 = not delivered by the
   \* network on behalf of a node), peers and routes are exactly what the protocol prescribes for that datagram
   /\ When(e.id = 0, Chk({"C09"}, "injected-keeps-peers-and-routes", Addrs(obs.peers) = Addrs(pred.peers) /\ obs.claims = pred.claims))
@@ -140,7 +142,7 @@ RecvEv(e) ==
               /\ \A a \in (Dests(e.sent) \cup Dests(r.out)) \ {e.src} : CountTo(e.sent, a, {"init"}) = Count(r.out, <<a, "init">>)
               /\ Tags(e.sent) \subseteq {"init", "empty", "rot"}))
   \* C10: only what an established peer sent as payload reaches the interface
-  /\ Chk({"C10"}, "interface-write-only-from-peers", e.wrote = 0 \/ (route = "peer" /\ e.res \in {"data", "err", "panic"}))
+  /\ Chk({"C10", "C02"}, "interface-write-only-from-peers", e.wrote = 0 \/ (route = "peer" /\ e.res \in {"data", "err", "panic"}))
   /\ Chk({"C10"}, "recv-interface-write", e.wrote = (IF e.res = "data" THEN 1 ELSE 0) \/ (e.res \in {"err", "panic"} /\ e.wrote <= 1))
   \* C01: a peer is added only for a party whose key the node trusts and that trusts the node's key
   /\ When(e.res \in {"initialized", "initialized-reply"} /\ KnownInst(e.info.nid),
@@ -157,6 +159,15 @@ RecvEv(e) ==
   \* C15: only node information and keepalive messages (and the handshake) refresh a peer
   /\ When(e.res \in {"data", "none", "err", "errinit", "ignored", "reply"},
         Chk({"C15"}, "only-announcements-refresh", Expiry(obs.peers) = Expiry(pre.peers)))
+  \* C02: what opens was sealed for THIS connection by its other end: by the node instance the last completed handshake
+  \* on that address was with, and addressed to this node (not a datagram of an earlier connection, another connection of
+  \* the same peer, or another peer)
+  /\ When(e.res \in {"data", "nodeinfo", "keepalive", "close", "none"} /\ genuine /\ ~plainSrc /\ \E x \in sess[e.n] : x[1] = e.src,
+        Chk({"C02"}, "opened-only-if-sealed-for-this-connection",
+            /\ <<e.src, e.orig>> \in sess[e.n]
+            /\ (e.odst = e.n \/ e.odst \in pre.own)))
+  /\ sess' = IF e.res \in {"initialized", "initialized-reply"} /\ e.src \in Addrs(pre.pend)
+              THEN [sess EXCEPT ![e.n] = {x \in @ : x[1] # e.src} \cup {<<e.src, e.info.nid>>}] ELSE sess
   /\ Adopt(e) /\ UNCHANGED <<now, inst>>
 
 IfaceEv(e) ==
@@ -167,13 +178,13 @@ IfaceEv(e) ==
                      /\ Dests(e.sent) \subseteq Addrs(pre.peers)
                      /\ \A a \in Dests(e.sent) : CountTo(e.sent, a, {"data"}) = 1))
   /\ Chk({"C10"}, "iface-no-local-write", e.wrote = 0)
-  /\ Adopt(e) /\ UNCHANGED <<now, inst>>
+  /\ Adopt(e) /\ UNCHANGED <<now, inst, sess>>
 
 CloseEv(e) ==
   LET n == st[e.n] pre == n.s obs == FromPost(e.post) IN
   /\ Compare("close", pre, obs)
   /\ Unless(e.tagerr, Chk({"C10"}, "close-emissions", Tags(e.sent) \subseteq {"close"} /\ \A a \in Addrs(pre.peers) \cup Dests(e.sent) : CountTo(e.sent, a, {"close"}) = (IF a \in Addrs(pre.peers) THEN 1 ELSE 0)))
-  /\ Adopt(e) /\ UNCHANGED <<now, inst>>
+  /\ Adopt(e) /\ UNCHANGED <<now, inst, sess>>
 
 \* invariants of the state after every call
 StateRules(e) ==
@@ -184,8 +195,8 @@ StateRules(e) ==
   /\ Chk({"C05"}, "one-entry-per-address", OneEntryPerAddress(obs))
 
 Step(e) ==
-  CASE e.op = "reset" -> now' = e.now /\ st' = [n \in 1..MaxNode |-> Down] /\ inst' = {}
-    [] e.op = "time" -> now' = e.now /\ UNCHANGED <<st, inst>>
+  CASE e.op = "reset" -> now' = e.now /\ st' = [n \in 1..MaxNode |-> Down] /\ inst' = {} /\ sess' = [n \in 1..MaxNode |-> {}]
+    [] e.op = "time" -> now' = e.now /\ UNCHANGED <<st, inst, sess>>
     [] e.op = "boot" -> Boot(e) /\ StateRules(e)
     [] e.op = "connect" -> ConnectEv(e) /\ StateRules(e)
     [] e.op = "addrc" -> AddRcEv(e) /\ StateRules(e)
@@ -193,7 +204,7 @@ Step(e) ==
     [] e.op = "recv" -> RecvEv(e) /\ StateRules(e)
     [] e.op = "iface" -> IfaceEv(e) /\ StateRules(e)
     [] e.op = "close" -> CloseEv(e) /\ StateRules(e)
-    [] e.op = "end" -> UNCHANGED <<now, st, inst>>
+    [] e.op = "end" -> UNCHANGED <<now, st, inst, sess>>
     [] OTHER -> FALSE
 
 TraceNext == l <= N /\ l' = l + 1 /\ Step(Rec[l])
